@@ -56,13 +56,14 @@ UNITS = {
                        'byte idempotence and the plain-run clause are decided by the bounded stand-in (subprocess runs).',
     },
     'C16': {
-        'functions': ['penman.__main__:_check', 'penman.model:Model.has_role'],
+        'functions': ['penman.__main__:_check', 'penman.model:Model.has_role', 'penman.model:Model.errors@functional'],
         'lemmas': [],
         'level': 'other',
         'explanation': 'Proved: _check returns a non-zero status exactly when the model\'s error report for the graph is '
                        'non-empty (also when the only errors are about the graph as a whole), records an error-N '
                        'entry for every offending context, and leaves triples and top alone; has_role accepts a role '
-                       'the model defines directly or as a single inversion.  The content of the report (reachability) '
+                       'the model defines directly or as a single inversion.  Bounded: the report itself (Model.errors '
+                       'against the report the property describes, contract executed natively).  The content of the report (reachability) '
                        'and the accumulation over graphs and files in process/main are decided by the bounded stand-in '
                        '(subprocess runs of python -m penman --check).',
     },
@@ -245,14 +246,20 @@ UNITS = {
                        'evaluate(quote(s)) == s (the json round trip) and type() are decided by the bounded stand-in.',
     },
     'C14': {
-        'functions': ['penman.layout:get_pushed_variable', 'penman.layout:interpret'],
+        'functions': ['penman.layout:get_pushed_variable', 'penman.layout:interpret',
+                      'penman.layout:node_contexts', 'penman.layout:appears_inverted',
+                      'penman.layout:node_contexts@functional', 'penman.layout:appears_inverted@functional',
+                      'penman.graph:Graph.variables', 'penman.graph:Graph.top'],
         'lemmas': [],
         'level': 'other',
         'explanation': 'Proved: the markers the diagnostics read are the documented ones -- interpret() / _interpret_node '
                        'put Push on the branch that opens a node and POP on the last triple of the nested node, with '
                        'the null-concept instance triple first; get_pushed_variable answers the variable of the first Push marker of a triple and None '
-                       'for a triple without one, and never raises (also for triples without a marker entry).  Node '
-                       'contexts and appears_inverted against the text are decided by the bounded stand-in.',
+                       'for a triple without one, and never raises (also for triples without a marker entry); node_contexts '
+                       'and appears_inverted leave the graph alone (frame contracts).  Bounded: node_contexts follows '
+                       'the documented stack discipline and appears_inverted its documented rule on every graph the '
+                       'sweep builds (contracts executed natively); node contexts and appears_inverted against the '
+                       'text are decided by the bounded stand-in.',
     },
     'C11': {
         'functions': ['penman.model:Model.is_role_reifiable', 'penman.model:Model.is_concept_dereifiable',
@@ -326,3 +333,39 @@ UNITS = {
                        'bounded stand-in.',
     },
 }
+
+
+# ---- cross-cutting additions (kept in one place so that no property that relies on them is forgotten) ------
+
+def _extend(pid, functions=(), lemmas=(), note=''):
+    u = UNITS[pid]
+    for f in functions:
+        if f not in u['functions']:
+            u['functions'].append(f)
+    for l in lemmas:
+        if l not in u['lemmas']:
+            u['lemmas'].append(l)
+    if note and note not in u['explanation']:
+        u['explanation'] = u['explanation'] + '  ' + note
+
+
+# every property whose statement decodes a text or reads a tree back ("decodes to the same graph",
+# "interpreting the result", ...) rests on the decode side: which nodes a tree has, and the graph it is read as
+DECODE_SIDE = ['penman.tree:_nodes', 'penman.tree:Tree.nodes', 'penman.layout:interpret']
+for _p in ('C05', 'C06', 'C11', 'C12', 'C14', 'C20'):
+    _extend(_p, DECODE_SIDE, note='Also proved here, because the statement reads results back: the decode side '
+                                  '(_nodes, Tree.nodes, interpret, and _interpret_node through it).')
+
+# the normal-form clause of C20 needs every stage to reach its fixed point in one pass; for role
+# canonicalisation that is the idempotence lemma of C13
+_extend('C20', ['penman.model:Model._canonicalize_inversion', 'penman.model:Model.canonicalize_role',
+                'penman.transform:_canonicalize_node', 'penman.transform:canonicalize_roles'],
+        ['canonicalize_role_adds_colon', 'canonicalize_role_idempotent'],
+        note='Role canonicalisation is idempotent (lemma of C13, outside finding N6), which the normal-form clause needs.')
+
+# the codec's methods are public ways of doing the same thing: each is the module function, with the
+# caller's arguments (stage view)
+_extend('C19', ['penman.codec:PENMANCodec.format_triples', 'penman.codec:PENMANCodec.parse_triples'],
+        note='PENMANCodec.format_triples / parse_triples hand the list and the line style on unchanged (stage view).')
+_extend('C01', ['penman.codec:PENMANCodec.format', 'penman.codec:PENMANCodec.parse'],
+        note='PENMANCodec.format / parse hand tree, text and options on unchanged (stage view).')
